@@ -6,6 +6,7 @@
   `by decide` below fail.  A harmless renumbering (same order) keeps them.
 -/
 import Jmes.Model
+import Proofs.Sigs
 import Spec.Tables
 namespace Jmes.Props
 open Jmes TokType
@@ -35,21 +36,7 @@ def TableOK (t : ParserTable) : Bool :=
 theorem spec_table_ok : TableOK Spec.table = true := by decide
 theorem generated_table_ok : TableOK Generated.table = true := by decide
 
-def sameTypes (a b : List JpType) : Bool := a.all (b.contains ·) && b.all (a.contains ·)
-def sameArgs : List ArgSpec → List ArgSpec → Bool
-  | [], [] => true
-  | x :: xs, y :: ys => x.variadic == y.variadic && sameTypes x.types y.types && sameArgs xs ys
-  | _, _ => false
-
-/-- The table maps exactly the specification's 26 names to the right handler
-    with the specification's signature. -/
-def SigsOK (gen spec : List FnEntry) : Bool :=
-  gen.length == spec.length
-  && spec.all (fun e => (gen.filter (fun g => g.key == e.key)).length == 1)
-  && spec.all (fun e => gen.any (fun g =>
-      g.key == e.key && g.handler == e.handler && g.hasExpRef == e.hasExpRef && sameArgs g.args e.args))
-
-theorem generated_sigs_ok : SigsOK Generated.functionTable Spec.functionTable = true := by decide
+theorem generated_sigs_ok : SigsOK Generated.functionTable Spec.functionTable = true := by decide +kernel
 
 /-- Character classes agree with the specification's on every code point
     below 256 and on end of input (the guards `r >= 128` / shift counts ≥ 64
